@@ -1,6 +1,7 @@
 """C08 - calls, returns, stack push/pop and context switches restore state exactly (structural mirrors, engine E6)."""
 import re
 
+from ..facts import AnalysisBroken
 from ..astq import walk, field_path, unwrap_casts, const_value, direct_writes
 from ..norm import render, render_stmt, Renderer, short_fn
 from ..sib import switch_arms, loc_key, locs_in, stack_ops, resolve_local
@@ -24,50 +25,60 @@ def p1_pc(ctx):
                 'reassembles l | h << 16 of pc & 0xFFFF / pc >> 16', floor=2)
     push = ctx.fn(I + 'PushPC()')
     pop = ctx.fn(I + 'PopPC()')
-    rp = Renderer(push, inline_locals=False)
-    rq = Renderer(pop, inline_locals=False)
-    ifp = [n for n in push['body'].get('body', []) if n.get('k') == 'if']
-    ifq = [n for n in pop['body'].get('body', []) if n.get('k') == 'if']
+    from .. import summ, boolform
     ctx.inst(R, 2)
-    if len(ifp) != 1 or len(ifq) != 1 or rp.r(ifp[0]['cond']) != rq.r(ifq[0]['cond']):
-        ctx.report(R, pop, pop['body'], 'PushPC/PopPC guards', 'push and pop do not branch on the same word-order condition')
+    SP, SQ = summ.summary(ctx, push, asserts='ignore'), summ.summary(ctx, pop, asserts='ignore')
+    PC = REGS + 'pc)'
+    HALF = {'(& %s 65535)' % PC: 'low', '(& 65535 %s)' % PC: 'low', '(>> %s 16)' % PC: 'high'}
+    WR = '(call Teakra::MemoryInterface::DataWrite on f:Teakra::Interpreter::mem (-- %ssp)) ' % REGS
+    RD = '(call Teakra::MemoryInterface::DataRead on f:Teakra::Interpreter::mem (post++ %ssp)) 0)' % REGS
+    pushes = []        # (condition, [role of the 1st word pushed, role of the 2nd])
+    for cond, seq, p_ in SP.effect_sequences(lambda e: e[0] == 'call' and 'DataWrite' in e[1]):
+        roles = []
+        for e in seq:
+            val_ = e[1][len(WR):-1] if e[1].startswith(WR) else ''
+            if val_.endswith(' 0'):
+                val_ = val_[:-2]          # the defaulted bypass_mmio argument
+            roles.append(HALF.get(val_))
+        pushes.append((cond, roles))
+    pops = []
+    for cond, seq, p_ in SQ.effect_sequences(lambda e: e[0] == 'call'):
+        reads = [e for e in p_.effects if e[0] == 'call' and e[1] == RD]
+        setpc = [e for e in p_.effects if e[0] == 'call' and 'Interpreter::SetPC' in e[1]]
+        roles = None
+        if len(reads) == 2 and len(setpc) == 1:
+            arg = unwrap_casts(setpc[0][-1]['args'][0])
+            hi = lo = None
+            if isinstance(arg, dict) and arg.get('k') == 'bin' and arg.get('op') == '|':
+                for side in (arg.get('lhs'), arg.get('rhs')):
+                    x = unwrap_casts(side)
+                    if isinstance(x, dict) and x.get('k') == 'bin' and x.get('op') == '<<' and const_value(unwrap_casts(x.get('rhs'))) == 16:
+                        y = unwrap_casts(x.get('lhs'))
+                        hi = y.get('_seq') if isinstance(y, dict) else None
+                    elif isinstance(x, dict):
+                        lo = x.get('_seq')
+            order = {reads[0][-1].get('_seq'): 0, reads[1][-1].get('_seq'): 1}
+            if hi in order and lo in order and hi != lo:
+                roles = [None, None]
+                roles[order[hi]] = 'high'
+                roles[order[lo]] = 'low'
+        pops.append((cond, roles))
+    if len(pushes) < 2 or len(pops) < 2 or any(None in (r_ or [None]) or len(r_) != 2 for c_, r_ in pushes) or any(r_ is None for c_, r_ in pops):
+        ctx.report(R, pop, pop['body'], 'PushPC/PopPC halves', 'pc is not pushed as pc & 0xFFFF and pc >> 16 / not reassembled as l | h << 16: %s / %s'
+                   % ([r_ for c_, r_ in pushes], [r_ for c_, r_ in pops]))
         return
-    # roles of the locals of PushPC
-    roles = {}
-    for v in walk(push['body']):
-        if v.get('k') == 'var' and 'init' in v:
-            t = rp.r(v['init'])
-            if t == '(& %spc) 65535)' % REGS:
-                roles['l:' + v['name']] = 'low'
-            elif t == '(>> %spc) 16)' % REGS:
-                roles['l:' + v['name']] = 'high'
-    if sorted(roles.values()) != ['high', 'low']:
-        ctx.report(R, push, push['body'], 'PushPC halves', 'pushed words are not pc & 0xFFFF and pc >> 16')
-        return
-    # roles of the locals of PopPC from the SetPC argument
-    sets = [n for n in walk(pop['body']) if n.get('k') == 'call' and n.get('name') == 'SetPC']
-    proles = {}
-    if len(sets) == 1:
-        m = re.match(r'^\(\| \(<< (l:\w+) 16\) (l:\w+)\)$', rq.r(sets[0]['args'][0]))
-        m2 = re.match(r'^\(\| (l:\w+) \(<< (l:\w+) 16\)\)$', rq.r(sets[0]['args'][0]))
-        if m:
-            proles = {m.group(1): 'high', m.group(2): 'low'}
-        elif m2:
-            proles = {m2.group(2): 'high', m2.group(1): 'low'}
-    if not proles:
-        ctx.report(R, pop, pop['body'], 'PopPC reassembly', 'PopPC does not call SetPC(l | h << 16)')
-        return
-    for br in ('then', 'else'):
+    for cq, rq_ in pops:
         ctx.oblig(R)
-        pw = [roles.get(rp.r(n['args'][1])) for n in walk(ifp[0][br]) if n.get('k') == 'call' and n.get('name') == 'DataWrite'
-              and rp.r(n['args'][0]) == '(-- %ssp))' % REGS]
-        pr = []
-        for n in walk(ifq[0][br]):
-            if n.get('k') == 'assign' and rq.r(n['rhs']) == '(call Teakra::MemoryInterface::DataRead on f:Teakra::Interpreter::mem (post++ %ssp)) 0)' % REGS:
-                pr.append(proles.get(rq.r(n['lhs'])))
-        if len(pw) != 2 or len(pr) != 2 or None in pw or None in pr or pw != list(reversed(pr)):
-            ctx.report(R, pop, ifq[0][br], 'PushPC/PopPC %s-branch' % br,
-                       'push order %s is not the reverse of pop order %s' % (pw, pr))
+        match = [rp_ for cp, rp_ in pushes if boolform.satisfiable(boolform.all_of(cp, cq))]
+        for rp_ in match:
+            if rp_ != list(reversed(rq_)):
+                ctx.report(R, pop, pop['body'], 'PushPC/PopPC order when %s' % boolform.show(cq)[-40:],
+                           'push order %s is not the reverse of pop order %s' % (rp_, rq_))
+    # both orders exist and are selected by the same mode bit
+    conds_p = sorted(boolform.show(c_) for c_, r_ in pushes)
+    conds_q = sorted(boolform.show(c_) for c_, r_ in pops)
+    if conds_p != conds_q or 'cpc' not in ''.join(conds_p):
+        ctx.report(R, pop, pop['body'], 'PushPC/PopPC guards', 'push and pop do not branch on the same word-order condition: %s / %s' % (conds_p, conds_q))
 
 
 def _arm_keys(ctx, f, arm, rend, writing):
@@ -451,6 +462,8 @@ def p4_context(ctx):
         stmts = f['body'].get('body', [])
         shadows = set()
         for st_ in stmts:
+            if st_.get('k') == 'decl' and all(const_value(v_.get('init')) is not None for v_ in st_.get('vars', [])):
+                continue        # a named compile-time constant (an index computed once)
             ok = st_.get('k') == 'call' and st_.get('name') == 'swap' and str(st_.get('fn', '')).startswith('std::swap') and len(st_.get('args', [])) == 2
             if ok:
                 ta, tb = r.r(st_['args'][0]), r.r(st_['args'][1])
@@ -465,25 +478,51 @@ def p4_context(ctx):
                 ctx.report(R, f, st_, short_fn(k)[-60:], 'Swap body contains something other than std::swap(self->register, own shadow): ' + r.s(st_)[:120])
     ctx.require(n_swap >= 12, 'only %d Swap instantiations found' % n_swap)
     # SwapAr / SwapArp / SwapAllArArp
-    f = ctx.fn(RS + '::SwapAllArArp()')
-    ctx.inst(R)
-    got = sorted(render(n.get('obj'), f) for n in walk(f['body']) if n.get('k') == 'call' and n.get('name') == 'Swap')
-    want = sorted('f:%s::shadow_swap_%s' % (RS, x) for x in ('ar0', 'ar1', 'arp0', 'arp1', 'arp2', 'arp3'))
-    if got != want:
-        ctx.report(R, f, f['body'], 'SwapAllArArp', 'swaps %s, expected all of ar0-1 and arp0-3' % got)
+    from .. import summ, boolform
+    from ..loops import loop_range
+    maps = {}
     for fn, pre, n in (('SwapAr(unsigned short)', 'ar', 2), ('SwapArp(unsigned short)', 'arp', 4)):
         f = ctx.fn(RS + '::' + fn)
         ctx.inst(R)
-        sw = [x for x in walk(f['body']) if x.get('k') == 'switch']
+        eff = summ.summary(ctx, f, asserts='ignore').effect_conditions(lambda e: e[0] == 'call' and '::Swap on ' in e[1])
         m = {}
-        if sw:
-            for arm in switch_arms(sw[0]):
-                objs = [render(c.get('obj'), f) for s_ in arm['stmts'] for c in walk(s_) if c.get('k') == 'call' and c.get('name') == 'Swap']
-                for l in arm['labels']:
-                    m[l] = objs
+        for i in range(n):
+            objs = []
+            for e, c in eff.items():
+                t = boolform.eval_selector(c, '$0', i)
+                if t is None:
+                    raise AnalysisBroken('C08: %s selects on something other than its index' % fn)
+                if t:
+                    objs.append(e[1].split(' on ')[1].split(' ')[0].rstrip(')'))
+            m[i] = sorted(objs)
         want = {i: ['f:%s::shadow_swap_%s%d' % (RS, pre, i)] for i in range(n)}
+        maps[fn.split('(')[0]] = m
         if m != want:
             ctx.report(R, f, f['body'], fn.split('(')[0], 'index -> bank mapping is %s' % m)
+    f = ctx.fn(RS + '::SwapAllArArp()')
+    ctx.inst(R)
+    got = [render(n.get('obj'), f) for n in walk(f['body']) if n.get('k') == 'call' and n.get('name') == 'Swap']
+    loops_ = [n for n in walk(f['body']) if n.get('k') == 'for']
+    for n in walk(f['body']):
+        if n.get('k') == 'call' and n.get('name') in maps and n.get('args'):
+            a0 = unwrap_casts(n['args'][0])
+            cv = const_value(a0) if isinstance(a0, dict) else None
+            idxs = None
+            if cv is not None:
+                idxs = [cv]
+            elif isinstance(a0, dict) and a0.get('k') == 'ref':
+                for lp in loops_:
+                    rng = loop_range(f, lp)
+                    if rng and rng[0] == a0.get('name') and any(x is n for x in walk(lp.get('body'))):
+                        idxs = list(range(rng[1], rng[2], rng[3]))
+            if idxs is None:
+                raise AnalysisBroken('C08: SwapAllArArp: bank index of %s is not a constant or a constant-range loop variable' % n['name'])
+            for i_ in idxs:
+                got += maps[n['name']].get(i_, ['?'])
+    got = sorted(got)
+    want = sorted('f:%s::shadow_swap_%s' % (RS, x) for x in ('ar0', 'ar1', 'arp0', 'arp1', 'arp2', 'arp3'))
+    if got != want:
+        ctx.report(R, f, f['body'], 'SwapAllArArp', 'swaps %s, expected all of ar0-1 and arp0-3' % got)
     # banke
     f = handlers(ctx, 'banke')
     ctx.require(len(f) == 1, 'banke handler not found')
